@@ -39,6 +39,20 @@ int main(int argc, char *argv[])
 				echs_nul_instant_p(h) ? 0 : s);
 		}
 	}
+	/* the other direction: Hijri dates from year 1 to 1600, in and far outside the coverage of the table calendars */
+	for (unsigned y = 1; y <= 1600; y += (thorough ? 1 : 1 + nd_rnd(3))) for (unsigned m = 1; m <= 12; m += (thorough ? 1 : 5)) {
+		unsigned d = 1 + nd_rnd(29);
+		echs_instant_t h = echs_instant_attach_scale(mkinst(y, m, d, 255, 0, 0, 0), (echs_scale_t)s), g = {.u = 0}, b = {.u = 0};
+		nd_crashed = 0;
+		if (!sigsetjmp(nd_jb, 1)) {
+			g = echs_instant_rescale(h, SCALE_GREGORIAN);
+			if (!echs_nul_instant_p(g)) b = echs_instant_detach_scale(echs_instant_rescale(echs_instant_detach_scale(g), (echs_scale_t)s));
+			g = echs_instant_detach_scale(g);
+		}
+		fprintf(o, "{\"e\":\"HDay\",\"sc\":%u,\"h\":[%u,%u,%u]", s, y, m, d);
+		if (nd_crashed) { fputs(",\"crash\":true}\n", o); continue; }
+		fprintf(o, ",\"g\":[%u,%u,%u],\"back\":[%u,%u,%u]}\n", g.y, g.m, g.d, b.y, b.m, b.d);
+	}
 	fflush(o);
 	return 0;
 }
